@@ -26,6 +26,11 @@ func AcceptConnection(conn net.Conn, manager cert.TlsConfig, secure bool, channe
 				streams.TryClose(conn)
 			}
 		}
+		// Whatever the error text says (it may quote what the peer sent), a peer that is not
+		// admitted must not be left with an open connection and no answer
+		if conn != nil {
+			streams.TryClose(conn)
+		}
 		return err
 	}
 
